@@ -9,4 +9,5 @@ go build -o bin/instrument ./cmd/instrument
 ov=$(bin/instrument -repo /repo -out /verif/.build/ov -add /verif/inpkg)
 h=$(basename "$(dirname "$ov")")
 go build -tags verif -overlay "$ov" -o ".build/check-$h" ./cmd/check
+go build -race -o ".build/racepass-$h-$(cat cmd/racepass/*.go | sha1sum | cut -c1-8)" ./cmd/racepass
 echo "setup ok: overlay $h"
